@@ -276,8 +276,8 @@ func genShapeOfKind(t *rapid.T, k exact.Kind, R int64, maxN int, mustClose bool)
 
 // pointPool collects lattice points in interesting relation to A.
 type pointPool struct {
-	verts, onEdge, inside, inHole, outside []exact.P
-	theme                                  int // 0 mixed, 1 hole interiors only, 2 outside only, 3 inside only, 4 boundary only
+	verts, onEdge, inside, inHole, outside, holeB []exact.P
+	theme                                         int // 0 mixed, 1 hole interiors only, 2 outside only, 3 inside only, 4 boundary only, 5 hole interior or hole boundary
 }
 
 func buildPool(t *rapid.T, A *exact.Shape, R int64) *pointPool {
@@ -292,6 +292,13 @@ func buildPool(t *rapid.T, A *exact.Shape, R int64) *pointPool {
 		}
 	}
 	for _, h := range A.Holes {
+		pp.holeB = append(pp.holeB, exact.Unclose(h)...)
+		for _, e := range exact.RingEdges(h) {
+			g := gcd(abs64(e.B.X-e.A.X), abs64(e.B.Y-e.A.Y))
+			for k := int64(1); k < g && k < 6; k++ {
+				pp.holeB = append(pp.holeB, exact.P{X: e.A.X + k*((e.B.X-e.A.X)/g), Y: e.A.Y + k*((e.B.Y-e.A.Y)/g)})
+			}
+		}
 		hs := exact.Shape{K: exact.KLine, Line: h}
 		mn, mx, _ := hs.Box()
 		he := exact.RingEdges(h)
@@ -345,6 +352,8 @@ func (pp *pointPool) draw(t *rapid.T, R int64) exact.P {
 		classes = [][]exact.P{pp.inside, pp.inside, pp.verts, pp.onEdge}
 	case 4:
 		classes = [][]exact.P{pp.verts, pp.onEdge}
+	case 5:
+		classes = [][]exact.P{pp.inHole, pp.holeB, pp.holeB}
 	}
 	for tries := 0; tries < 4; tries++ {
 		c := classes[rapid.IntRange(0, len(classes)-1).Draw(t, "pclass")]
@@ -358,7 +367,7 @@ func (pp *pointPool) draw(t *rapid.T, R int64) exact.P {
 // genRelatedShape draws B in deliberate relation to A (contact configurations, §3.2 mode ii/iii).
 func genRelatedShape(t *rapid.T, A *exact.Shape, k exact.Kind, R int64, mustClose bool) exact.Shape {
 	pp := buildPool(t, A, R)
-	pp.theme = rapid.SampledFrom([]int{0, 0, 0, 1, 1, 2, 2, 3, 3, 4}).Draw(t, "theme")
+	pp.theme = rapid.SampledFrom([]int{0, 0, 0, 1, 1, 2, 2, 3, 3, 4, 5}).Draw(t, "theme")
 	switch k {
 	case exact.KPoint:
 		return exact.Shape{K: exact.KPoint, Pt: pp.draw(t, R)}
